@@ -49,6 +49,9 @@ def run(pid, tier):
     R.assumptions = list(COMMON_ASSUMPTIONS) + spec.get("assumptions", [])
     F = get_facts("default")
     R.configs.append({"config": "default", "features": F.features, "tag": F.tag, "body_owners": F.counts["body_owners"], "hir_bodies": F.counts["hir_bodies"], "mir_bodies": F.counts["mir_bodies"]})
+    # the interpreter behind the evaluated families is checked against its fixture on every run (independent of /repo)
+    import selftest
+    selftest.check(R)
     spec["fn"](F, R, tier)
     return R.finish(spec["explanation"], spec["technique"])
 
